@@ -95,6 +95,11 @@ def run(ctx):
     r = ctx.mc("Dtx_mc", "Dtx_mc.cfg", what="DTX design: safety + liveness", workers=8, timeout=900)
     if r.violation:
         raise vf.Infra("Dtx model theorem %s violated:\n%s" % (r.violation, r.state_dump[:1500]))
+    if ctx.tier == "thorough":
+        # the same design with the application changing the DTX setting up to twice, anywhere (safety; 7.65 M states)
+        r2 = ctx.mc("Dtx_mc", "Dtx_mc_tog.cfg", what="DTX design with OPUS_SET_DTX changes: safety", workers=8, timeout=2400, heap="12g")
+        if r2.violation:
+            raise vf.Infra("Dtx model theorem %s violated with setting changes:\n%s" % (r2.violation, r2.state_dump[:1500]))
     ctx.exhaustive = True
     ctx.notes["exhaustive_scope"] = "model side: all durations x detectors x splits x schedules (closed state graph); implementation side sampled"
     # 2. behaviours
